@@ -3,8 +3,8 @@
 # passing tests with BASELINE.json's stable_pass.  Usage: tools/baseline.sh [repo-dir]
 repo="${1:-/repo}"
 out="$(mktemp /tmp/rv-junit-XXXXXX.xml)"
-cd "$repo" && /venv/bin/python -m pytest -q -p no:cacheprovider --timeout=900 --continue-on-collection-errors --junitxml="$out" >/tmp/rv-baseline.log 2>&1
-tail -3 /tmp/rv-baseline.log
+cd "$repo" && /venv/bin/python -m pytest -q -p no:cacheprovider --timeout=900 --continue-on-collection-errors --junitxml="$out" >"$out.log" 2>&1
+tail -3 "$out.log"
 /venv/bin/python - "$out" <<'PY'
 import json, sys
 sys.path.insert(0, "/w/lib")
@@ -21,5 +21,5 @@ for m in missing[:20]:
 sys.exit(1 if missing else 0)
 PY
 rc=$?
-rm -f "$out"
+rm -f "$out" "$out.log"
 exit $rc
